@@ -8,6 +8,7 @@ import (
 	"errors"
 	"fmt"
 	"net/http"
+	"os"
 	"sort"
 	"strconv"
 	"strings"
@@ -43,6 +44,7 @@ type c15Op struct {
 	Dig     int   `json:"dig,omitempty"`
 	Colls   []int `json:"colls,omitempty"`
 	Patient bool  `json:"patient,omitempty"` // long configRetryTimeout: never gives up waiting within a scenario
+	Hex     bool  `json:"hex,omitempty"`     // the version id this operation stamps has a 32-hex-digit digest
 }
 
 func (o c15Op) String() string {
@@ -78,6 +80,18 @@ type c15Call struct {
 }
 
 type c15Ver struct{ Gen, Dig uint64 }
+
+// a database stored before the scenario starts (stream "gen"): registry entry and config document at version
+// "<Gen>-<Dig as 32 hex digits>" (the shape of GenerateDatabaseConfigVersionID), written directly to the bucket
+type c15Preset struct {
+	DB    int   `json:"db"`
+	Gen   int   `json:"gen"`
+	Dig   int   `json:"dig"`
+	Colls []int `json:"colls"`
+}
+
+// version id as the REST layer produces it: decimal generation, '-', 32 hex digits
+func c15HexVer(gen uint64, dig int) string { return fmt.Sprintf("%d-%032x", gen, dig) }
 
 func (v c15Ver) String() string { return fmt.Sprintf("%d-%d", v.Gen, v.Dig) }
 
@@ -273,6 +287,12 @@ func c15ParseVer(s string) c15Ver {
 	}
 	g, err1 := strconv.ParseUint(parts[0], 10, 64)
 	d, err2 := strconv.ParseUint(parts[1], 10, 64)
+	if len(parts[1]) == 32 { // GenerateDatabaseConfigVersionID shape: 32 hex digits
+		d, err2 = strconv.ParseUint(parts[1], 16, 64)
+	}
+	if strconv.FormatUint(g, 10) != parts[0] { // the generation must be in canonical decimal form
+		err1 = errors.New("non-canonical generation")
+	}
 	if err1 != nil || err2 != nil {
 		return c15Ver{Gen: 9999, Dig: 9999}
 	}
@@ -332,6 +352,7 @@ type c15Env struct {
 	nodes   []*c15Node
 	events  []c15Ev
 	maxDB   int
+	pre     []c15Preset
 }
 
 var c15BucketSeq int
@@ -351,6 +372,33 @@ func c15NewEnv(t *testing.T, ctx context.Context, cluster *base.RosmarCluster, o
 		}
 	}
 	return e
+}
+
+// preset stores databases at chosen versions without running the operations that would lead there: the registry is
+// built by the real upsertDatabaseConfig and written by the real setGatewayRegistry through the undecorated connection
+func (e *c15Env) preset(pre []c15Preset) {
+	if len(pre) == 0 {
+		return
+	}
+	bc := &bootstrapContext{Connection: e.cluster, sgVersion: *base.ProductVersion}
+	reg := NewGatewayRegistry(*base.ProductVersion)
+	for _, p := range pre {
+		name := c15DBName(p.DB)
+		cfg := &DatabaseConfig{Version: c15HexVer(uint64(p.Gen), p.Dig), MetadataID: name,
+			DbConfig: DbConfig{Name: name, BucketConfig: BucketConfig{Bucket: &e.bucket}, Scopes: c15Scopes(p.Colls)}}
+		if _, err := reg.upsertDatabaseConfig(e.ctx, c15Group, cfg); err != nil {
+			e.t.Fatalf("c15 preset: upsert %s: %v", name, err)
+		}
+		if _, err := e.cluster.InsertMetadataDocument(e.ctx, e.bucket, PersistentConfigKey(e.ctx, c15Group, name), cfg); err != nil {
+			e.t.Fatalf("c15 preset: config %s: %v", name, err)
+		}
+		if p.DB > e.maxDB {
+			e.maxDB = p.DB
+		}
+	}
+	if err := bc.setGatewayRegistry(e.ctx, e.bucket, reg); err != nil {
+		e.t.Fatalf("c15 preset: registry: %v", err)
+	}
 }
 
 func (e *c15Env) close() {
@@ -374,13 +422,20 @@ func (e *c15Env) runOp(n *c15Node) {
 	name := c15DBName(n.op.DB)
 	switch n.op.Kind {
 	case c15Insert:
-		cfg := &DatabaseConfig{Version: fmt.Sprintf("1-%d", n.op.Dig), MetadataID: name,
+		version := fmt.Sprintf("1-%d", n.op.Dig)
+		if n.op.Hex {
+			version = c15HexVer(1, n.op.Dig)
+		}
+		cfg := &DatabaseConfig{Version: version, MetadataID: name,
 			DbConfig: DbConfig{Name: name, BucketConfig: BucketConfig{Bucket: &e.bucket}, Scopes: c15Scopes(n.op.Colls)}}
 		_, err = bc.InsertConfig(e.ctx, e.bucket, c15Group, cfg)
 	case c15Update:
 		_, err = bc.UpdateConfig(e.ctx, e.bucket, c15Group, name, func(cur *DatabaseConfig) (*DatabaseConfig, error) {
 			v := c15ParseVer(cur.Version)
 			cur.Version = fmt.Sprintf("%d-%d", v.Gen+1, n.op.Dig)
+			if n.op.Hex {
+				cur.Version = c15HexVer(v.Gen+1, n.op.Dig)
+			}
 			cur.Scopes = c15Scopes(n.op.Colls)
 			return cur, nil
 		})
@@ -633,6 +688,14 @@ func (e *c15Env) coqOpsEvs() (string, string) {
 	return cqList(ops), "[" + strings.Join(evs, ";") + "]"
 }
 
+func c15CqPresets(pre []c15Preset) string {
+	items := make([]string, len(pre))
+	for i, p := range pre {
+		items[i] = fmt.Sprintf("(%d, (%d,%d), %s)", p.DB, p.Gen, p.Dig, c15CqInts(p.Colls))
+	}
+	return cqList(items)
+}
+
 func (e *c15Env) coqCase(f c15Final) string {
 	opsS, evsS := e.coqOpsEvs()
 	res := make([]string, len(e.nodes))
@@ -647,6 +710,10 @@ func (e *c15Env) coqCase(f c15Final) string {
 			prev = fmt.Sprintf("(Some (%s, %s))", c15CqVer(en.Prev.Ver), c15CqInts(en.Prev.Colls))
 		}
 		regItems = append(regItems, fmt.Sprintf("(%d, E %s %s %s)", d, c15CqVer(en.Cur.Ver), c15CqInts(en.Cur.Colls), prev))
+	}
+	if len(e.pre) > 0 {
+		return fmt.Sprintf("CRunFrom %s %s %s %s (Fin %s %s %s)", c15CqPresets(e.pre), opsS, evsS, cqList(res),
+			cqBool(f.RegExists), cqList(regItems), c15CqCfgs(f.Cfgs))
 	}
 	return fmt.Sprintf("CRun %s %s %s (Fin %s %s %s)", opsS, evsS, cqList(res),
 		cqBool(f.RegExists), cqList(regItems), c15CqCfgs(f.Cfgs))
@@ -785,14 +852,16 @@ func c15FinalEq(a, b c15Final) bool {
 
 // ---------- scenarios ----------
 type c15Scenario struct {
-	Name string   `json:"name"`
-	Ops  []c15Op  `json:"ops"`
-	Dirs []c15Dir `json:"dirs"`
-	Seq  bool     `json:"sequential"` // at most one live node at any time (crash-sequential run)
+	Name string      `json:"name"`
+	Ops  []c15Op     `json:"ops"`
+	Dirs []c15Dir    `json:"dirs"`
+	Seq  bool        `json:"sequential"`       // at most one live node at any time (crash-sequential run)
+	Pre  []c15Preset `json:"preset,omitempty"` // databases stored before the first operation starts
 }
 
 type c15Outcome struct {
 	env   *c15Env
+	start c15Final   // store before the first directive (empty unless the scenario has presets)
 	obs   []c15Final // store after each directive
 	final c15Final
 	ok    bool
@@ -813,6 +882,9 @@ func c15OpStrings(ops []c15Op) []string {
 	out := make([]string, len(ops))
 	for i, o := range ops {
 		out[i] = o.String()
+		if o.Hex {
+			out[i] += "[hex]"
+		}
 		if o.Patient {
 			out[i] += "[patient]"
 		}
@@ -856,8 +928,13 @@ func c15SameDB(a, b c15Final, d int) bool {
 func (h *c15Harness) runScenario(stream string, sc c15Scenario) *c15Outcome {
 	env := c15NewEnv(h.t, h.ctx, h.cluster, sc.Ops)
 	defer env.close()
-	out := &c15Outcome{env: env, ok: true}
+	env.pre = sc.Pre
+	env.preset(sc.Pre)
+	out := &c15Outcome{env: env, ok: true, start: env.observe()}
 	out.desc = map[string]any{"scenario": sc.Name, "ops": c15OpStrings(sc.Ops), "dirs": sc.Dirs}
+	if len(sc.Pre) > 0 {
+		out.desc["preset"] = sc.Pre
+	}
 	desc := out.desc
 	for _, d := range sc.Dirs {
 		if !env.run([]c15Dir{d}) {
@@ -969,7 +1046,7 @@ func (h *c15Harness) seqMonitors(sc c15Scenario, out *c15Outcome) {
 	}
 	before := func(node int) c15Final {
 		if first[node] == 0 {
-			return c15Final{Reg: map[int]c15Entry{}, Cfgs: map[int]c15Cfg{}}
+			return out.start
 		}
 		return out.obs[first[node]-1]
 	}
@@ -989,6 +1066,7 @@ func (h *c15Harness) seqMonitors(sc c15Scenario, out *c15Outcome) {
 			continue
 		}
 		d := n.op.DB
+		h.rollbackMonitor(ni, n, pre, post, desc)
 		switch {
 		case n.op.Kind == c15Load:
 			if n.res.Kind == "loaded" {
@@ -1077,6 +1155,119 @@ func (h *c15Harness) seqMonitors(sc c15Scenario, out *c15Outcome) {
 			}
 		}
 	}
+}
+
+// interrupted_update_rolled_back (C15/ProtoGen.v): the store shows an update of db interrupted between the registry
+// write and the config-document write (registry: version vnew with previous version vold, document still at vold,
+// gen vold < gen vnew -- WHATEVER the generations are).  A node that gives up waiting and runs alone, and reads that
+// document (GetDatabaseConfigs, or an update / delete of the same database), classifies the document as OLDER than the
+// registry (generations compared as numbers), fences it and rolls the registry back to (vold, previous collections):
+// a load returns db at vold, and afterwards the in-flight marker is gone.
+func (h *c15Harness) rollbackMonitor(ni int, n *c15Node, pre, post c15Final, desc map[string]any) {
+	if n.op.Patient {
+		return
+	}
+	for db := 1; db <= h.maxDBOf(pre); db++ {
+		en, ok := pre.Reg[db]
+		cfg, has := pre.Cfgs[db]
+		if !ok || !has || en.Prev == nil || !c15Live(en.Cur.Ver) || cfg.Ver != en.Prev.Ver || en.Prev.Ver.Gen >= en.Cur.Ver.Gen {
+			continue
+		}
+		if n.op.Kind != c15Load && n.op.DB != db {
+			continue
+		}
+		input := map[string]any{"scenario": desc, "db": db, "registry_version": en.Cur.Ver.String(), "previous_version": en.Prev.Ver.String(),
+			"config_document_version": cfg.Ver.String(), "recovering_operation": n.op.String()}
+		sig := "recovery:interrupted-update-not-rolled-back"
+		if n.res.Kind == "ENewer" {
+			h.rec.Fail("interrupted_update_rolled_back", sig, input, fmt.Sprintf("node %d (%s) run alone: the config document of db%d (%s) is one generation BEHIND the registry (%s, previous %s) but was classified as newer: %s", ni, n.op, db, cfg.Ver, en.Cur.Ver, en.Prev.Ver, n.res.Raw))
+			continue
+		}
+		if n.op.Kind == c15Load {
+			got, loaded := n.res.Loaded[db]
+			if n.res.Kind != "loaded" || !loaded || got.Ver != en.Prev.Ver {
+				h.rec.Fail("interrupted_update_rolled_back", sig, input, fmt.Sprintf("node %d: GetDatabaseConfigs run alone returned %s %v for db%d, expected the previous configuration %s", ni, n.res.Kind, n.res.Loaded[db], db, en.Prev.Ver))
+				continue
+			}
+			pe := post.Reg[db]
+			if !c15Steady(post, db) || pe.Cur.Ver != en.Prev.Ver || !c15SameInts(pe.Cur.Colls, c15Eff(en.Prev.Colls)) {
+				h.rec.Fail("interrupted_update_rolled_back", sig, input, fmt.Sprintf("node %d: after GetDatabaseConfigs the registry entry of db%d is %v (config %v), expected %s with no previous version", ni, db, pe, post.Cfgs[db], en.Prev.Ver))
+			}
+			continue
+		}
+		if pe, still := post.Reg[db]; still && pe.Prev != nil && pe.Cur.Ver == en.Cur.Ver && pe.Prev.Ver == en.Prev.Ver && post.Cfgs[db].Ver == cfg.Ver {
+			h.rec.Fail("interrupted_update_rolled_back", sig, input, fmt.Sprintf("node %d (%s) => %s: the interrupted update of db%d is still in flight afterwards (registry %v, config %v)", ni, n.op, n.res.Kind, db, pe, post.Cfgs[db]))
+		}
+	}
+}
+
+func (h *c15Harness) maxDBOf(f c15Final) int {
+	m := 0
+	for d := range f.Reg {
+		if d > m {
+			m = d
+		}
+	}
+	for d := range f.Cfgs {
+		if d > m {
+			m = d
+		}
+	}
+	return m
+}
+
+// stream "gen": the protocol at EVERY generation, in particular where the decimal generation gains a digit.
+// Databases are stored at generation g (version ids of the GenerateDatabaseConfigVersionID shape, written directly
+// instead of running g-1 real updates); an update (to g+1) or a delete of db1 is crashed at every storage call, then
+// recovered by a load, by another update, or by a load and a delete; a final load.  g spans 1..12 and 98..101
+// (thorough: also 999, 1000 and 2^32).
+func (h *c15Harness) generations() {
+	gens := []int{1, 2, 3, 4, 5, 6, 7, 8, 9, 10, 11, 12, 98, 99, 100, 101}
+	if vThorough() {
+		gens = append(gens, 999, 1000, 9999, 4294967295)
+	}
+	hex := func(o c15Op) c15Op { o.Hex = true; return o }
+	targets := []c15Op{hex(c15Upd(1, 6, 1)), c15Del(1), hex(c15Upd(1, 6, 1, 3))}
+	recoveries := [][]c15Op{
+		{c15Ld()},
+		{hex(c15Upd(1, 7, 2))},
+		{c15Ld(), c15Del(1)},
+	}
+	n := 0
+	for gi, g := range gens {
+		pres := [][]c15Preset{
+			{{DB: 1, Gen: g, Dig: 161, Colls: []int{1, 2}}},
+			{{DB: 1, Gen: g, Dig: 161, Colls: []int{1, 2}}, {DB: 2, Gen: gens[(gi+5)%len(gens)], Dig: 162, Colls: []int{4}}},
+		}
+		for ti, tgt := range targets {
+			if ti == 2 && !vThorough() && g != 9 && g != 99 && g != 3 {
+				continue
+			}
+			pre := pres[(gi+ti)%2]
+			for k := 1; k <= 40; k++ {
+				finished := false
+				for ri, rcv := range recoveries {
+					if !vThorough() && (gi+ti+k+ri)%3 != 0 {
+						continue
+					}
+					ops := append(append([]c15Op{tgt}, rcv...), c15Ld())
+					sc := c15SeqScenario(fmt.Sprintf("gen/g%d/%s/k%d/rec%d", g, tgt, k, ri), ops, 0, k)
+					sc.Pre = pre
+					out := h.runScenario("gen", sc)
+					n++
+					tn := out.env.nodes[0]
+					if tn.done && !tn.crashed.Load() {
+						finished = true
+					}
+				}
+				if finished {
+					break
+				}
+			}
+		}
+	}
+	h.rec.Extra("generation_scenarios", n)
+	h.rec.Extra("generations", gens)
 }
 
 // sequential scenario: node i runs to completion, except [crashNode] which is crashed at its k-th storage call
@@ -1397,6 +1588,10 @@ func TestVerifC15(t *testing.T) {
 	defer cluster.Close()
 	h := &c15Harness{t: t, ctx: ctx, rec: rec, cluster: cluster}
 
+	if os.Getenv("VERIF_C15_ONLY") == "gen" { // development aid: the generation stream alone
+		h.generations()
+		return
+	}
 	t0 := time.Now()
 	h.corpus()
 	t1 := time.Now()
@@ -1405,6 +1600,7 @@ func TestVerifC15(t *testing.T) {
 	h.races()
 	t3 := time.Now()
 	h.random(vNewRand(vSeed()))
+	h.generations()
 	t4 := time.Now()
 	h.applyStream(vNewRand(vSeed() + 15))
 	rec.Extra("apply_seconds", time.Since(t4).Seconds())
